@@ -1190,10 +1190,14 @@ class Elemwise(Blockwise):
                 sliced_arg = new_collection(arg)[tuple(arg_slices)]
                 new_args.append(sliced_arg.expr)
 
-        new_where, new_out = self.where, self.out
         if self.where is not True:
             new_where, new_out = new_args[-2:]
             new_args = new_args[:-2]
+        else:
+            # Without a mask ``out`` is only the placeholder ``handle_out``
+            # swaps the expression into; it takes no part in the computation and
+            # keeping it (un-sliced) would put its full shape into ``out_ind``.
+            new_where, new_out = True, None
 
         return Elemwise(
             self.op,
